@@ -34,6 +34,16 @@ pub fn history_replays(depth: Depth, mut f: impl FnMut(AbsReplay, usize)) {
 			let sp = HistSpace { regime, ports: ports.clone(), max_frames: maxf, min_frames: 0, budget, free_presence: false, max_items: 2 };
 			for (h, dev) in histories(&sp) {
 				let a = AbsReplay { ver: (v.0, v.1, 0), ports: ports.clone(), teams: false, gecko: Gecko::None, frames: h, ends: 1, metadata: Some(default_meta()), fill: Fill::A };
+				// the stream may also stop without a Game End (the last frame is then closed by the end of the stream)
+				let mut b = a.clone();
+				b.ends = 0;
+				b.metadata = None;
+				f(b, dev);
+				if dev == 0 {
+					let mut c = a.clone();
+					c.ends = 2;
+					f(c, dev);
+				}
 				f(a, dev);
 			}
 		}
@@ -50,6 +60,9 @@ pub fn history_replays(depth: Depth, mut f: impl FnMut(AbsReplay, usize)) {
 			let sp = HistSpace { regime, ports: ports.clone(), max_frames: maxf, min_frames: maxf, budget: if quick { 0 } else { 1 }, free_presence: true, max_items: 1 };
 			for (h, dev) in histories(&sp) {
 				let a = AbsReplay { ver: (v.0, v.1, 0), ports: ports.clone(), teams: false, gecko: Gecko::None, frames: h, ends: 1, metadata: Some(default_meta()), fill: Fill::B };
+				let mut b = a.clone();
+				b.ends = 0;
+				f(b, dev);
 				f(a, dev);
 			}
 		}
